@@ -116,7 +116,7 @@ def run_check(prop, tier):
             grp = j.get('group', '')
             if isinstance(r, pool.WorkerDied):
                 case = {'job': {k: j[k] for k in ('mod', 'fn', 'args') if k in j},
-                        'running': r.case}
+                        'flavour': j.get('flavour', 'plain'), 'running': r.case}
                 violations.append({
                     'prop': prop, 'module': j['mod'],
                     'sig': dict(site='worker', cls=r.kind, fn=j['fn'],
@@ -139,7 +139,8 @@ def run_check(prop, tier):
                         'sig': dict(site='job-exception', cls=(r.get('error') or '').split(':')[0],
                                     fn=j['fn'], **{k: v for k, v in j.get('args', {}).items()
                                                    if k in ('fam', 'kind', 'impl')}),
-                        'case': {'job': {k: j[k] for k in ('mod', 'fn', 'args') if k in j}},
+                        'case': {'job': {k: j[k] for k in ('mod', 'fn', 'args') if k in j},
+                                 'flavour': j.get('flavour', 'plain')},
                         'detail': 'the implementation raised out of a harness step that never fails '
                                   'on a correct tree: %s\n%s' % (r.get('error'), trace[-1500:])})
                     continue
@@ -283,13 +284,23 @@ def run_replay(path):
         flavour = case.get('flavour', 'plain')
     env = build.worker_env(flavour)
     outs = []
+    whole_job = isinstance(case, dict) and 'job' in case
     for i in range(2):
-        job = {'mod': modname, 'fn': 'replay', 'args': {'case': case}, 'id': i}
+        if whole_job:
+            # a case recorded because the worker died (sanitizer abort, segfault, hang) or the
+            # implementation raised out of the job: re-run that job as it was
+            job = dict(case['job'], id=i)
+        else:
+            job = {'mod': modname, 'fn': 'replay', 'args': {'case': case}, 'id': i}
         for j, r in pool.run_jobs([job], env, 1):
             if isinstance(r, pool.WorkerDied):
                 outs.append(('died', r.kind, r.rc))
-                print('worker %s rc=%s\n%s' % (r.kind, r.rc, r.stderr[-3000:]))
+                print('worker %s rc=%s while running %s\n%s' % (r.kind, r.rc, r.case, r.stderr[-3000:]))
             elif not r.get('ok'):
+                if whole_job:
+                    outs.append(('died', 'exception', (r.get('error') or '').split(':')[0]))
+                    print('job raised %s\n%s' % (r.get('error'), (r.get('trace') or '')[-2000:]))
+                    continue
                 print('HARNESS-ERROR: %s\n%s' % (r.get('error'), r.get('trace')))
                 return 2
             else:
